@@ -23,6 +23,10 @@ class C14(WrapHarness):
         out.append({'feat': 'full', 'algo': 'F', 'sep': 'A', 'split': 'H', 'bw': True, 'le': 'LF', 'gen': 'symall', 'n': 3})
         out.append({'feat': 'full', 'algo': 'F', 'sep': 'A', 'split': 'N', 'bw': False, 'le': 'LF', 'gen': 'sym1',
                     'n': 4 if q else 5})
+        # structured multi-word texts with runs of spaces (beyond the flat N bound)
+        for algo in ('F', 'O'):
+            out.append({'feat': 'full', 'algo': algo, 'sep': 'A', 'split': 'H', 'bw': True, 'le': 'LF', 'gen': 'words',
+                        'nwords': 3, 'wl': 1 if q else 2, 'maxgap': 2, 'trail': True, 'wmax': 1 << 16})
         # Unicode separator: no force-breaking (break_words off)
         for split in ('N', 'H'):
             out.append({'feat': 'full', 'algo': 'F', 'sep': 'U', 'split': split, 'bw': False, 'le': 'LF', 'gen': 'alpha',
